@@ -78,8 +78,15 @@ func ruleKeyAfterCompare(c *core.Ctx) {
 		"pdf.(*stdSecHandler).authenticateOwner6": {"|0:32"},
 	}
 	n := 0
-	for _, fn := range c.Prog.Funcs(pkg) {
-		fn := fn
+	for _, raw := range c.Prog.Funcs(pkg) {
+		// the authenticating functions are looked at in normalised form
+		// (helpers folded in); a helper that only they call is covered there
+		fn := raw
+		if _, listed := wantCmp[raw.Key]; listed {
+			fn = c.Prog.Func("pdf", strings.TrimPrefix(raw.Key, "pdf."))
+		} else if !writerSide[raw.Key] && !raw.Obj.Exported() && allowedOrOnlyCalledBy(c, raw, func(k string) bool { _, ok := wantCmp[k]; return ok || writerSide[k] }, 0) {
+			continue
+		}
 		g := fn.Graph()
 		info := fn.Info()
 		for _, v := range g.Vs {
